@@ -49,11 +49,21 @@ M64 = (1 << 64) - 1
 API = {1: "async", 2: "suspend", 3: "resume", 4: "activate"}
 
 
+HARNESS_TIMEOUT = 600
+
+
 def run_harness(seed, rounds, permille, scale=1):
+    """returns (stdout, None) or (stdout so far, why the client died).  A wall-clock expiry alone is load, not a verdict: the
+    same run is repeated once, alone, with ten times the limit; only a second expiry is reported (as a hang)."""
     exe, msg = common.build_harness("c06_slanes", ["c06_slanes.c"], whitebox=True, extra=["-I" + common.VERIF + "/harness"])
     if exe is None:
         raise RuntimeError("harness build failed: " + msg)
-    r = common.run([exe, str(seed), str(rounds), str(permille), str(scale)], timeout=600)
+    cmd = [exe, str(seed), str(rounds), str(permille), str(scale)]
+    r = common.run(cmd, timeout=HARNESS_TIMEOUT)
+    if r.returncode == 124:
+        r = common.run(cmd, timeout=10 * HARNESS_TIMEOUT)
+        if r.returncode == 124:
+            return r.stdout or "", "no output end after %d s, twice (second time alone): the client hangs" % (10 * HARNESS_TIMEOUT)
     if r.returncode != 0:
         k = [l for l in (r.stdout or "").split("\n") if l.startswith("K ")]
         why = "the library crashed with signal %s in round %s (DISPATCH_CLIENT_CRASH raises SIGILL)" % tuple(k[0].split()[1:3]) if k \
@@ -168,7 +178,7 @@ def normalise(lay, rd, per):
     return streams, notes
 
 
-def chain(events, start, limit=400000):
+def chain_once(events, start, limit):
     """order the successful transitions so that old(e_k) = new(e_{k-1}) (old(e_0) = start), keeping every thread's program
     order; depth-first with the recorder's ticket as the preference. returns (ordered list or None, value reached)"""
     byth = {}
@@ -204,6 +214,22 @@ def chain(events, start, limit=400000):
     return order, cur
 
 
+def chain(events, start, limit=400000):
+    """the order search has a step budget; exhausting it is not a verdict: one more attempt with ten times the budget"""
+    order, cur = chain_once(events, start, limit)
+    if order is None:
+        order, cur = chain_once(events, start, 10 * limit)
+    return order, cur
+
+
+def eval_retry(name, body, timeout):
+    """coq_eval; a wall-clock expiry is repeated once with ten times the limit (R3)"""
+    ok, vals, raw = driver.coq_eval(name, IMPORTS, body, timeout=timeout)
+    if not ok and "TIMEOUT" in raw:
+        ok, vals, raw = driver.coq_eval(name, IMPORTS, body, timeout=10 * timeout)
+    return ok, vals, raw
+
+
 def coq_replay(name, jobs, chunk_obs=9000, timeout=900):
     """jobs: list of (rb, tid, [Obs]); returns list of (first rejected index, idle at end)"""
     out = []
@@ -219,18 +245,20 @@ def coq_replay(name, jobs, chunk_obs=9000, timeout=900):
         body.append(";\n".join("(%d, %d, [%s])" % (rb, tid, "; ".join(o.coq() for o in tr)) for rb, tid, tr in part))
         body.append("].")
         body.append("Eval vm_compute in map (fun '(rb, t, tr) => let '(i, d) := replay rb t tr in [i; d]) jobs.")
-        ok, vals, raw = driver.coq_eval("%s_%d" % (name, part_no), IMPORTS, "\n".join(body) + "\n", timeout=timeout)
+        ok, vals, raw = eval_retry("%s_%d_%d" % (name, os.getpid(), part_no), "\n".join(body) + "\n", timeout)
         part_no += 1
         if not ok or len(vals) != 1:
             raise RuntimeError("coq replay evaluation failed: " + raw[-2000:])
         xs = driver.ints(vals[0])
+        if len(xs) != 2 * len(part):
+            raise RuntimeError("coq replay printed %d numbers for %d traces" % (len(xs), len(part)))
         out += [(xs[2 * k], xs[2 * k + 1]) for k in range(len(part))]
     return out
 
 
 def coq_diag(name, rb, tid, tr):
     body = "Eval vm_compute in replay_diag %d %d [%s].\n" % (rb, tid, "; ".join(o.coq() for o in tr))
-    ok, vals, raw = driver.coq_eval(name, IMPORTS, body, timeout=300)
+    ok, vals, raw = eval_retry("%s_%d" % (name, os.getpid()), body, 300)
     return vals[0] if ok and vals else raw[-500:]
 
 
@@ -350,124 +378,204 @@ def judge_round(lay, rd, streams, label):
     return fails, mism, st
 
 
+MUST = ["begins", "transitions", "resume_took_lock", "unlock_suspended", "slow_suspend", "slow_resume", "suspend_in_callout",
+        "activations"]
+RULE = ("per round one serial queue (active / initially inactive) under dispatch_async_f floods from 1-4 threads, balanced "
+        "random dispatch_suspend / dispatch_resume from 1-3 controller threads (nesting 1-4; round 1 of every run and a third of "
+        "the others: one controller nests 62-100 deep), suspends issued by work items on their own queue and resumed by a "
+        "helper thread, dispatch_activate from 1-2 threads (round 2 of every run is created inactive); perturbation 0 / 150 / "
+        "400 per mille of the atomic operations; every thread trace replayed in Coq against SLaneS.gstep, dq_state chain "
+        "rebuilt, real-time oracle on API / callout marks; evaluations = observations actually replayed in Coq")
+
+
+def judge_run(tag, seed, rounds, permille, scale):
+    """one harness run with these parameters, completely judged (oracle, chain, Coq replay).
+    returns dict(fails, mism, notes, stats, samples, observations, streams, rounds_done)"""
+    out = {"fails": [], "mism": [], "notes": [], "stats": {}, "samples": [], "observations": 0, "streams": 0, "rounds_done": 0,
+           "inactive_rounds": 0, "deep_rounds": 0, "nested_calls": 0}
+    fails, mism = out["fails"], out["mism"]
+    run = {"seed": seed, "rounds": rounds, "permille": permille, "scale": scale}
+    run_label = "seed %d perturbation %d/1000" % (seed, permille)
+    text, died = run_harness(seed, rounds, permille, scale)
+    jobs, jobinfo = [], []
+    try:
+        lay, rds, per = parse(text)
+    except Exception as e:      # noqa
+        if died:
+            fails.append(dict(run, key="stress-client-died", what="the stress client crashed or hung (%s): %s" % (run_label, died)))
+        else:
+            mism.append(dict(run, what="%s: the recorder's output could not be parsed (empty or truncated): %r" % (run_label, e)))
+        return out
+    if died:
+        fails.append(dict(run, key="stress-client-died", what="the stress client crashed or hung (%s): %s" % (run_label, died)))
+        # the recording made up to the crash is still judged: it shows the first transition the model does not allow
+        try:
+            bl = [l.split() for l in text.split("\n") if l.startswith("B ")]
+            if bl and (not rds or int(bl[-1][1]) != rds[-1]["round"]):
+                b = [int(x) for x in bl[-1][1:]]
+                rdc = {"round": b[0], "addr": b[1], "inactive": b[2], "st0": b[3], "seq0": b[4], "seq1": 1 << 62, "wq_end": 4,
+                       "role": lay["ANON"], "crashed": True}
+                streams, nn = normalise(lay, rdc, per)
+                lbl = "%s round %d (crashed)" % (run_label, b[0])
+                f2, m2, _ = judge_round(lay, rdc, streams, lbl)
+                mism += [dict(m, **run) for m in m2]
+                for st_ in streams:
+                    jobs.append((1, st_["tid"] & 0x3fffffff, st_["obs"]))
+                    jobinfo.append((lbl, rdc, st_))
+        except Exception as e:      # noqa
+            out["notes"].append("partial recording of the crashed run could not be judged: %r" % (e,))
+    elif len(rds) != rounds:
+        # a round that is not reported although the client exited normally was not measured: say so (R2)
+        mism.append(dict(run, what="%s: %d rounds requested, %d reported by the stress client" % (run_label, rounds, len(rds))))
+    agg = out["stats"]
+    for rd in rds:
+        label = "%s round %d" % (run_label, rd["round"])
+        out["rounds_done"] += 1
+        out["inactive_rounds"] += rd["inactive"]
+        out["deep_rounds"] += 1 if rd["deep"] else 0
+        rp = dict(run, round=rd["round"])
+        if not rd["ok"] or rd["ran"] != rd["nitems"]:
+            fails.append(dict(rp, key="not-all-run-after-final-resume",
+                              what="%s: %d of %d submitted items had run although nothing was suspended any more and no item had "
+                                   "started for 20 s (suspends %d, resumes %d, final dq_state %#x)" % (
+                                       label, rd["ran"], rd["nitems"], rd["nsusp"], rd["nres"], rd["st1"])))
+        if suspended(lay, rd["st1"]) or rd["side"] != 0:
+            fails.append(dict(rp, key="still-suspended-after-balanced-history",
+                              what="%s: after %d suspends and %d resumes the word is %#x and the side counter %d" % (
+                                  label, rd["nsusp"], rd["nres"], rd["st1"], rd["side"])))
+        streams, nn = normalise(lay, rd, per)
+        for n in nn[:5]:
+            mism.append(dict(rp, what="%s: %s" % (label, n)))
+        if not streams:
+            mism.append(dict(rp, what="%s: no operation on the queue was recorded" % label))
+        rb = 1 if rd["role"] == lay["ANON"] else 0
+        for st_ in streams:
+            jobs.append((rb, st_["tid"] & 0x3fffffff, st_["obs"]))
+            jobinfo.append((label, rd, st_))
+            out["nested_calls"] += 1 if st_["nested"] else 0
+        out["streams"] += len(streams)
+        f2, m2, stt = judge_round(lay, rd, streams, label)
+        fails += [dict(f, **rp) for f in f2]
+        mism += [dict(m, **rp) for m in m2]
+        for k, v in stt.items():
+            agg[k] = max(agg.get(k, 0), v) if k == "max_count" else agg.get(k, 0) + v
+        if len(out["samples"]) < 3:
+            out["samples"].append({"run": label, "inactive": rd["inactive"], "deep": rd["deep"], "items": rd["nitems"],
+                                   "suspends": rd["nsusp"], "transitions": stt["transitions"], "streams": len(streams)})
+    # (a) replay of every thread trace against gstep, inside Coq
+    res = []
+    if jobs:
+        try:
+            res = coq_replay("%s_s%d" % (tag, seed), jobs)
+        except RuntimeError as e:
+            mism.append(dict(run, what="%s: replay of the recorded traces against SLaneS.gstep could not be evaluated" % run_label,
+                             detail=str(e)[-1500:]))
+        if res and len(res) != len(jobs):
+            mism.append(dict(run, what="%s: %d traces sent to Coq, %d verdicts came back" % (run_label, len(jobs), len(res))))
+            res = []
+    rejected = 0
+    for (idx, idle), (label, rd, st_), (rb, tid, tr) in zip(res, jobinfo, jobs):
+        out["observations"] += len(tr)
+        if idx >= 0 or (not idle and not rd.get("crashed")):
+            rejected += 1
+            if rejected <= 3:
+                lo = max(0, idx - 6)
+                detail = {"thread": st_["thr"], "tid": tid, "nested": st_["nested"], "index": idx, "idle_at_end": idle,
+                          "around": [o.brief() for o in tr[lo:idx + 3]] if idx >= 0 else [o.brief() for o in tr[-6:]]}
+                if idx >= 0:
+                    detail["candidates"] = coq_diag("%s_diag%d" % (tag, rejected), rb, tid, tr[:idx + 1])[:600]
+                    # the rejected trace from the thread's last return to idle, so that it can be fed to the model again
+                    cut = max([k for k in range(idx) if tr[k].k == "ret"] + [-1]) + 1
+                    if idx + 1 - cut <= 1500:
+                        detail["trace"] = {"rb": rb, "tid": tid, "obs": [o.coq() for o in tr[cut:idx + 1]]}
+                mism.append(dict(run, round=rd["round"],
+                                 what="%s: the model (SLaneS.gstep) does not allow observation #%d of thread %d: %s" % (
+                                     label, idx, st_["thr"], tr[idx].brief() if 0 <= idx < len(tr) else
+                                     "thread not idle at the end of the round"), detail=detail))
+    if rejected > 3:
+        mism.append(dict(run, what="%s: %d further thread traces rejected by the model" % (run_label, rejected - 3)))
+    return out
+
+
 def correspond(ctx, tag="c06_slane"):
     quick = ctx.tier == "quick"
     plans = [(0, 4 if quick else 10, 1), (150, 8 if quick else 24, 1), (400, 6 if quick else 20, 1)]
     if not quick:
         plans.append((250, 10, 2))
-    mism, fails, notes = [], [], []
-    samples = []
-    total_obs = total_streams = 0
-    dist = {"rounds": 0, "inactive_rounds": 0, "deep_rounds": 0, "streams": 0, "nested_calls": 0}
+    mism, fails, notes, samples = [], [], [], []
+    dist = {"runs": 0, "rounds": 0, "inactive_rounds": 0, "deep_rounds": 0, "streams": 0, "nested_calls": 0, "observations": 0}
     agg = {}
-    jobs, jobinfo = [], []
     for permille, rounds, scale in plans:
         seed = ctx.rng.below(1 << 30) + 1
-        text, died = run_harness(seed, rounds, permille, scale)
-        run_label = "seed %d perturbation %d/1000" % (seed, permille)
-        if died:
-            fails.append({"key": "stress-client-died", "what": "the stress client crashed or hung (%s): %s" % (run_label, died),
-                          "seed": seed, "rounds": rounds, "permille": permille, "scale": scale})
-            # the recording made up to the crash is still replayed: it shows the first transition the model does not allow
-            try:
-                lay, rds, per = parse(text)
-                bl = [l.split() for l in text.split("\n") if l.startswith("B ")]
-                if bl and (not rds or int(bl[-1][1]) != rds[-1]["round"]):
-                    b = [int(x) for x in bl[-1][1:]]
-                    rdc = {"round": b[0], "addr": b[1], "inactive": b[2], "st0": b[3], "seq0": b[4], "seq1": 1 << 62, "wq_end": 4,
-                           "role": lay["ANON"], "crashed": True}
-                    streams, nn = normalise(lay, rdc, per)
-                    f2, m2, _ = judge_round(lay, rdc, streams, "%s round %d (crashed)" % (run_label, b[0]))
-                    mism += m2
-                    for s in streams:
-                        jobs.append((1, s["tid"] & 0x3fffffff, s["obs"]))
-                        jobinfo.append(("%s round %d (crashed)" % (run_label, b[0]), rdc, s, {"seed": seed}))
-            except Exception as e:      # noqa
-                notes.append("partial recording of the crashed run could not be parsed: %r" % (e,))
+        try:
+            o = judge_run(tag, seed, rounds, permille, scale)
+        except RuntimeError as e:      # the harness could not be built
+            mism.append({"what": "stress client seed %d: %s" % (seed, str(e)[-1500:])})
             continue
-        lay, rds, per = parse(text)
-        if len(rds) < rounds:
-            notes.append("%s: only %d of %d rounds finished" % (run_label, len(rds), rounds))
-        for rd in rds:
-            label = "%s round %d" % (run_label, rd["round"])
-            dist["rounds"] += 1
-            dist["inactive_rounds"] += rd["inactive"]
-            dist["deep_rounds"] += 1 if rd["deep"] else 0
-            rp = {"seed": seed, "rounds": rounds, "permille": permille, "scale": scale, "round": rd["round"]}
-            if not rd["ok"] or rd["ran"] != rd["nitems"]:
-                fails.append(dict(rp, key="not-all-run-after-final-resume",
-                                  what="%s: %d of %d submitted items had run 3 s after the last dispatch_resume / dispatch_activate "
-                                       "(suspends %d, resumes %d, final dq_state %#x)" % (label, rd["ran"], rd["nitems"], rd["nsusp"],
-                                                                                         rd["nres"], rd["st1"])))
-            if suspended(lay, rd["st1"]) or rd["side"] != 0:
-                fails.append(dict(rp, key="still-suspended-after-balanced-history",
-                                  what="%s: after %d suspends and %d resumes the word is %#x and the side counter %d" % (
-                                      label, rd["nsusp"], rd["nres"], rd["st1"], rd["side"])))
-            streams, nn = normalise(lay, rd, per)
-            for n in nn[:5]:
-                mism.append({"what": "%s: %s" % (label, n)})
-            rb = 1 if rd["role"] == lay["ANON"] else 0
-            for s in streams:
-                jobs.append((rb, s["tid"] & 0x3fffffff, s["obs"]))
-                jobinfo.append((label, rd, s, rp))
-                total_obs += len(s["obs"])
-                dist["nested_calls"] += 1 if s["nested"] else 0
-            dist["streams"] += len(streams)
-            f2, m2, stt = judge_round(lay, rd, streams, label)
-            for f in f2:
-                f.update(rp)
-            fails += f2
-            mism += m2
-            for k, v in stt.items():
-                agg[k] = max(agg.get(k, 0), v) if k == "max_count" else agg.get(k, 0) + v
-            if len(samples) < 6:
-                samples.append({"run": label, "inactive": rd["inactive"], "deep": rd["deep"], "items": rd["nitems"],
-                                "suspends": rd["nsusp"], "transitions": stt["transitions"], "streams": len(streams)})
-    # (a) replay of every thread trace against gstep, inside Coq
-    try:
-        res = coq_replay(tag, jobs)
-    except RuntimeError as e:
-        mism.append({"what": "replay of the recorded traces against SLaneS.gstep could not be evaluated", "detail": str(e)[-1500:]})
-        res = []
-    rejected = 0
-    for (idx, idle), (label, rd, s, rp), (rb, tid, tr) in zip(res, jobinfo, jobs):
-        if idx >= 0 or (not idle and not rd.get("crashed")):
-            rejected += 1
-            if rejected <= 4:
-                lo = max(0, idx - 6)
-                detail = {"thread": s["thr"], "tid": tid, "nested": s["nested"], "index": idx, "idle_at_end": idle,
-                          "around": [o.brief() for o in tr[lo:idx + 3]] if idx >= 0 else [o.brief() for o in tr[-6:]]}
-                if idx >= 0:
-                    detail["candidates"] = coq_diag(tag + "_diag%d" % rejected, rb, tid, tr[:idx + 1])[:600]
-                mism.append({"what": "%s: the model (SLaneS.gstep) does not allow observation #%d of thread %d: %s" % (
-                    label, idx, s["thr"], tr[idx].brief() if 0 <= idx < len(tr) else "thread not idle at the end of the round"),
-                    "detail": detail})
-    if rejected > 4:
-        mism.append({"what": "%d further thread traces rejected by the model" % (rejected - 4)})
+        dist["runs"] += 1
+        fails += o["fails"]
+        mism += o["mism"]
+        notes += o["notes"]
+        samples += o["samples"][:2]
+        dist["rounds"] += o["rounds_done"]
+        for k in ("inactive_rounds", "deep_rounds", "streams", "nested_calls", "observations"):
+            dist[k] += o[k]
+        for k, v in o["stats"].items():
+            agg[k] = max(agg.get(k, 0), v) if k == "max_count" else agg.get(k, 0) + v
     dist.update(agg)
-    dist["observations"] = total_obs
-    must = ["begins", "transitions", "resume_took_lock", "slow_suspend", "slow_resume", "activation_by_activate", "suspend_in_callout"]
-    missing = [k for k in must if not dist.get(k)]
-    if missing and not fails and not mism:
-        notes.append("branches not reached in this run: " + ", ".join(missing))
-    return {"evaluations": total_obs, "distinct_nontrivial": dist["streams"],
-            "rule": "per round one serial queue (active / initially inactive) under dispatch_async_f floods from 1-4 threads, balanced "
-                    "random dispatch_suspend / dispatch_resume from 1-3 controller threads (nesting 1-4; in a third of the rounds one "
-                    "controller nests 62-100 deep), suspends issued by work items on their own queue and resumed by a helper thread, "
-                    "dispatch_activate from 1-2 threads; perturbation 0 / 150 / 400 per mille of the atomic operations; every thread "
-                    "trace replayed in Coq against SLaneS.gstep, dq_state chain rebuilt, real-time oracle on API / callout marks; "
-                    "evaluations = observations replayed",
-            "samples": samples, "distribution": dist, "mismatches": mism[:20], "failures": fails[:20], "notes": notes}
+    dist["activations"] = dist.get("activation_by_activate", 0) + dist.get("activation_by_resume", 0)
+    # floors (R2): a run that measured nothing, or never reached the paths this part exists for, ties nothing
+    if dist["rounds"] == 0 or dist["observations"] == 0:
+        mism.append({"what": "the protocol part recorded %d rounds and replayed %d observations: nothing was measured" % (
+            dist["rounds"], dist["observations"])})
+    elif not fails and not mism:
+        missing = [k for k in MUST if not dist.get(k)]
+        if missing:
+            mism.append({"what": "the stress runs never reached: %s (they are not a test of those paths of the protocol)" % ", ".join(missing),
+                         "detail": {k: dist.get(k, 0) for k in MUST}})
+    return {"evaluations": dist["observations"], "distinct_nontrivial": dist["streams"], "rule": RULE,
+            "samples": samples[:6], "distribution": dist, "mismatches": mism[:20], "failures": fails[:20], "notes": notes}
 
 
 def replay(ctx, obj):
-    for f in obj.get("failures", []):
-        print(f.get("what"))
-        if "seed" in f:
-            text, died = run_harness(f["seed"], f.get("rounds", 8), f.get("permille", 150), f.get("scale", 1))
-            lay, rds, per = parse(text) if not died else (None, [], {})
-            print("  re-run (schedules differ from run to run): %s; rounds finished %d; all ran: %s" % (
-                died or "completed", len(rds), all(r["ok"] for r in rds)))
+    """re-executes every recorded run (same seed, round count, perturbation, scale) on the current build and judges it again with
+    the whole judge (oracle, chain, Coq replay).  rc 1: a recorded failure (same key) or, for a recorded mismatch, any mismatch
+    shows again; 0: none does; 2: an entry names no run that could be executed."""
+    entries = [("failure", f) for f in obj.get("failures", [])]
     for b in obj.get("broken", []):
-        print("no longer checks:", b)
-    return 1
+        d = b.get("detail") if isinstance(b, dict) else None
+        entries.append(("mismatch", d if isinstance(d, dict) else {"what": str(b)}))
+    reproduced = unexecutable = 0
+    done = {}
+    for kind, e in entries:
+        print("recorded %s: %s" % (kind, e.get("what")))
+        tr = (e.get("detail") or {}).get("trace") if isinstance(e.get("detail"), dict) else None
+        if tr:
+            body = "Eval vm_compute in replay %d %d [%s].\n" % (tr["rb"], tr["tid"], "; ".join(tr["obs"]))
+            ok, vals, raw = eval_retry("c06_slane_rp_%d" % os.getpid(), body, 300)
+            print("  the recorded trace against the model built from the current tree: %s" % (
+                ("first rejected observation, idle at end = " + " ".join(vals[0].split())) if ok and vals else "could not be evaluated"))
+        if not all(k in e for k in ("seed", "rounds", "permille", "scale")):
+            print("  names no stress run: nothing to execute; only a full ./check re-establishes it")
+            unexecutable += 1
+            continue
+        key = (e["seed"], e["rounds"], e["permille"], e["scale"])
+        if key not in done:
+            try:
+                done[key] = judge_run("c06_slane_rp", *key)
+            except RuntimeError as ex:
+                print("  the stress client could not be built: %s" % str(ex)[-300:])
+                unexecutable += 1
+                continue
+        o = done[key]
+        again = [f for f in o["fails"] if f.get("key") == e.get("key")] if kind == "failure" else list(o["mism"])
+        if again:
+            reproduced += 1
+            print("  re-run of seed %d (%d rounds, %d/1000, scale %d) REPRODUCES: %s" % (key + (again[0]["what"][:400],)))
+        else:
+            print("  re-run of seed %d (%d rounds, %d/1000, scale %d): does not reproduce (%d rounds, %d observations judged, "
+                  "%d other failures, %d mismatches)" % (key + (o["rounds_done"], o["observations"], len(o["fails"]), len(o["mism"]))))
+    if not entries:
+        print("the replay file names nothing for the protocol part")
+        return 2
+    return 1 if reproduced else (2 if unexecutable else 0)
